@@ -1980,7 +1980,7 @@ func newOrderAnalysis(c *Ctx, p *Prog) *orderAnalysis {
 	a := &orderAnalysis{p: p, c: c, taints: map[any]taint{}, why: map[any]string{}, pureMemo: map[*ssa.Function]int{}, insMemo: map[*ssa.Function]int{}, globalsW: map[*ssa.Global]bool{}, implMemo: map[types.Type][]types.Type{},
 		pdMemo: map[*ssa.Function][][]bool{}, ctlBlocks: map[*ssa.BasicBlock]bool{}, ctlFns: map[*ssa.Function]bool{}, ctlWhy: map[any]string{}, ctlSrc: map[any]uint64{}}
 	for f := range p.Reach {
-		if f.Blocks != nil {
+		if f.Blocks != nil && !strings.Contains(f.String(), "/internal/zz") {
 			a.fns = append(a.fns, f)
 		}
 	}
